@@ -38,8 +38,8 @@ func (r *recFS) Open(name string) (fs.File, error) {
 	if len(r.names) < 20 {
 		r.names = append(r.names, name)
 	}
-	if r.inner == nil {
-		return nil, fs.ErrNotExist
+	if r.inner == nil || r.opens.Load() > 40 {
+		return nil, fs.ErrNotExist // also ends a nesting that would otherwise never stop
 	}
 	return r.inner.Open(name)
 }
@@ -539,6 +539,13 @@ func c07Crafted(w *core.W, j int) {
 		c07Parse(w, "a 300 IN A 192.0.2.1\n$INCLUDE self.db\nb 300 IN A 192.0.2.2\n", cfg3, "self-include", self)
 		mutual := fstest.MapFS{"zones/p.db": &fstest.MapFile{Data: []byte("$INCLUDE q.db\n")}, "zones/q.db": &fstest.MapFile{Data: []byte("x 300 IN A 192.0.2.1\n$INCLUDE p.db sub\n")}}
 		c07Parse(w, "$INCLUDE p.db\n", cfg3, "self-include", mutual)
+		// files that include themselves through a line produced by $GENERATE, entered directly and
+		// through an $INCLUDE (the nesting count must not depend on who wrote the $INCLUDE line)
+		gen := fstest.MapFS{"zones/g.db": &fstest.MapFile{Data: []byte("$GENERATE 0-0 $$INCLUDE g.db\n")},
+			"zones/p.db": &fstest.MapFile{Data: []byte("$GENERATE 1-1 $$INCLUDE q.db\n")}, "zones/q.db": &fstest.MapFile{Data: []byte("x 300 IN A 192.0.2.1\n$INCLUDE p.db\n")}}
+		for _, main := range []string{"$INCLUDE g.db\n", "$GENERATE 0-0 $$INCLUDE g.db\n", "$INCLUDE p.db\n", "$INCLUDE q.db\n", "a 300 IN A 192.0.2.1\n$GENERATE 5-5 $$INCLUDE q.db\n"} {
+			c07Parse(w, main, cfg3, "self-include", gen)
+		}
 		// an included file whose reads fail, and a directory
 		c07Parse(w, "a 300 IN A 192.0.2.1\n$INCLUDE dir\nb 300 IN A 192.0.2.2\n", cfg3, "include-directory", fstest.MapFS{"zones/dir/x": &fstest.MapFile{Data: []byte("x")}})
 		w.Count("self_include_cases", 1)
